@@ -18,7 +18,16 @@ pub fn replay_line(st: &mut Stats, prop: &str, line: &Value) {
         st.nontrivial += 1;
     }
     st.evaluations += 1;
-    let (Ok(l), Ok(r)) = (from_bytes(&bytes_of(&line["lbytes"])), from_bytes(&bytes_of(&line["rbytes"]))) else {
+    // pairs whose names exceed what a binary file can hold are realised through hp.obo + annotation files
+    let load = |side: &str| -> Result<hpo::Ontology, String> {
+        if line["via"].as_str() == Some("obo") {
+            let scn = crate::cmd_binary::scenario_of(&line[if side == "l" { "lo" } else { "ro" }]);
+            crate::paths::via_jax(&crate::paths::jax_plain(&scn, None), false)
+        } else {
+            from_bytes(&bytes_of(&line[if side == "l" { "lbytes" } else { "rbytes" }]))
+        }
+    };
+    let (Ok(l), Ok(r)) = (load("l"), load("r")) else {
         st.violations.push(Violation { property: prop.to_string(), what: "cannot load ontologies for compare".into(), replay: json!({"cmd": "replay-compare", "property": prop, "line": line, "diffs": []}) });
         return;
     };
@@ -116,7 +125,9 @@ pub fn replay_line(st: &mut Stats, prop: &str, line: &Value) {
         if !empty(&l.compare(&l)) {
             d.push("comparing an ontology with itself reports differences".to_string());
         }
-        if let Ok(l2) = from_bytes(&l.as_bytes()) {
+        // (the binary form holds term and gene names up to the documented 255 bytes: the round-trip law is about ontologies within that limit)
+        let within_limit = line["via"].as_str() != Some("obo");
+        if let (true, Ok(l2)) = (within_limit, from_bytes(&l.as_bytes())) {
             if !empty(&l.compare(&l2)) || !empty(&l2.compare(&l)) {
                 d.push("comparing an ontology with its binary round trip reports differences".to_string());
             }
